@@ -492,13 +492,10 @@ theorem apply_absent (info : Nat → EntInfo) (c : CC) (k : Nat) (o : Op) (hw : 
   | mapCmd ck k' => exact ⟨hw, ha, rfl⟩
   | invalidate k' =>
     simp only [apply]
-    cases hg : aget c.sessions k' with
-    | none => exact ⟨hw, ha, rfl⟩
-    | some u =>
-      refine ⟨fun p hp => hw p (mem_adel hp).1, ?_, rfl⟩
-      intro hmm
-      obtain ⟨p, hp, rfl⟩ := List.mem_map.mp hmm
-      exact ha (List.mem_map.mpr ⟨p, (mem_adel hp).1, rfl⟩)
+    refine ⟨fun p hp => hw p (mem_adel hp).1, ?_, rfl⟩
+    intro hmm
+    obtain ⟨p, hp, rfl⟩ := List.mem_map.mp hmm
+    exact ha (List.mem_map.mpr ⟨p, (mem_adel hp).1, rfl⟩)
   | gc =>
     refine ⟨fun p hp => hw p (List.mem_filter.mp hp).1, ?_, rfl⟩
     intro hmm
@@ -535,9 +532,7 @@ theorem apply_wf (info : Nat → EntInfo) (c : CC) (o : Op) (hw : WF info c) : W
   | mapCmd ck k' => exact hw
   | invalidate k' =>
     simp only [apply]
-    split
-    · exact hw
-    · exact fun p hp => hw p (mem_adel hp).1
+    exact fun p hp => hw p (mem_adel hp).1
   | gc => exact fun p hp => hw p (List.mem_filter.mp hp).1
   | clear => exact wf_empty info
   | size => exact hw
@@ -546,28 +541,9 @@ theorem apply_wf (info : Nat → EntInfo) (c : CC) (o : Op) (hw : WF info c) : W
 
 theorem invalidate_absent (info : Nat → EntInfo) (c : CC) (k : Nat) : Absent (apply info c (.invalidate k)).1 k := by
   simp only [apply]
-  cases hg : aget c.sessions k with
-  | none =>
-    intro hm
-    obtain ⟨p, hp, rfl⟩ := List.mem_map.mp hm
-    -- the first binding of p.1 exists, contradiction with aget = none
-    have : ∀ (l : List (Nat × Nat)), p ∈ l → aget l p.1 ≠ none := by
-      intro l hl
-      induction l with
-      | nil => cases hl
-      | cons q t ih =>
-        obtain ⟨a, b⟩ := q
-        by_cases ha : a = p.1
-        · simp [aget, ha]
-        · simp only [aget, ha, if_false]
-          rcases List.mem_cons.mp hl with rfl | h
-          · exact absurd rfl ha
-          · exact ih h
-    exact this _ hp hg
-  | some u =>
-    intro hm
-    obtain ⟨p, hp, hpk⟩ := List.mem_map.mp hm
-    exact (mem_adel hp).2 hpk
+  intro hm
+  obtain ⟨p, hp, hpk⟩ := List.mem_map.mp hm
+  exact (mem_adel hp).2 hpk
 
 theorem run_absent (info : Nat → EntInfo) (ops : List Op) (c : CC) (k : Nat) (hw : WF info c) (ha : Absent c k)
     (ho : ∀ o ∈ ops, ∀ u, o = .store u → (info u).key ≠ k) :
